@@ -21,6 +21,8 @@ impl Span {
 
 // T: the sibling nodes; `span(&T)` is the closure argument of select_spanned -- here a field read
 pub struct Item { pub span: Span, pub id: int }
+impl Clone for Item { #[verifier::external_body] fn clone(&self) -> (r: Item) ensures r == *self { unimplemented!() } }
+impl Copy for Item {}
 
 // std::iter::Peekable over the sibling list (std semantics of peek/next, ASSUMED)
 #[verifier::external_body]
@@ -45,8 +47,12 @@ impl Peekable {
 }
 
 // completion MatchState projected on its tags (the payload of Found is not inspected here)
-pub enum MatchState { NotFound, Empty, Found }
-pub struct FindVisitor { pub pos: BytePos, pub found: MatchState }
+// (Found carries what was found; of completion's `Match` only the identifier case is spelled out.  The borrow of the
+// symbol lives as long as the AST; lifetimes are not part of what is verified here and are written 'static)
+pub enum Match { Ident(Span, &'static Sym, Ty), Other }
+pub enum MatchState { NotFound, Empty, Found(Match) }
+// `visited`: ghost log of the nodes the search descended into (specification only)
+pub struct FindVisitor { pub pos: BytePos, pub found: MatchState, pub visited: Ghost<Seq<int>> }
 
 // siblings as the parser produces them: well formed, in source order, not overlapping
 pub open spec fn ordered(s: Seq<Item>) -> bool {
@@ -60,7 +66,7 @@ impl FindVisitor {
     pub fn visit_expr(&mut self, e: Item) ensures final(self).pos == old(self).pos { unimplemented!() }
     // likewise the recursive step on patterns
     #[verifier::external_body]
-    pub fn visit_pattern(&mut self, p: Item) ensures final(self).pos == old(self).pos { unimplemented!() }
+    pub fn visit_pattern(&mut self, p: Item) ensures final(self).pos == old(self).pos, final(self).visited@ == old(self).visited@.push(p.id) { unimplemented!() }
 }
 
 // ---- Suggest::on_pattern, the as-pattern arm (`x@p`): editor queries run on programs that may NOT type check
@@ -105,3 +111,10 @@ impl Span {
 }
 pub struct SpannedName { pub span: Span, pub value: Sym }
 pub enum PatternField<'a> { Type { name: SpannedName }, Value { name: SpannedName, value: Option<&'a Item> } }
+
+// the record type the checker inferred for the pattern, and the type it gives to a field (the type itself when the field is
+// not in it -- the fallback of the code); `row_iter().find(..).map(..).unwrap_or(typ)` is named by this helper (R-iter)
+pub uninterp spec fn field_type_of(record: Ty, field: Sym) -> Ty;
+#[verifier::external_body]
+pub fn row_field_type<'a>(typ: &'a Ty, field: &Sym) -> (r: &'a Ty) ensures *r == field_type_of(*typ, *field) { unimplemented!() }
+impl Clone for Ty { #[verifier::external_body] fn clone(&self) -> (r: Ty) ensures r == *self { unimplemented!() } }
